@@ -26,6 +26,7 @@ fn run_engine(engine: &str, ctx: &mut Ctx) {
     match engine {
         "noop" => {}
         "codec" => wpmon::engines::codec::run(ctx),
+        "record-stream" => wpmon::engines::codec::run_record_streams(ctx),
         "codec-stream" => wpmon::engines::codec::run_stream(ctx),
         "iovec" => wpmon::engines::iovec::run(ctx),
         "stream" => wpmon::engines::stream::run(ctx),
